@@ -23,6 +23,10 @@ type PairCase struct {
 	// StopErrKind: which error the callback fails with: 0 an error of the harness, 1 mast.ErrNoMoreDiffs itself,
 	// 2 an error wrapping mast.ErrNoMoreDiffs (e.g. from a second diff cursor driven inside the callback), 3 mast.ErrIterDone
 	StopErrKind int `json:"stop_err_kind,omitempty"`
+	// Prelude > 0: before the diff under test, another diff is started and abandoned part-way
+	// (1: old.DiffLinks(new) stopped by its callback, 2: old.DiffIter(new) failed by its callback,
+	// 3: new.DiffLinks(old) stopped, 4: a DiffCursor on (old,new) read once and dropped)
+	Prelude int `json:"prelude,omitempty"`
 }
 
 var pairBaseWeights = core.OpWeights{
@@ -55,7 +59,29 @@ func genPair(t *rapid.T, tier string, o core.GenOpts, persistedOnly bool) PairCa
 	c.OldRes = rapid.SampledFrom(res).Draw(t, "oldres")
 	c.NewRes = rapid.SampledFrom(res).Draw(t, "newres")
 	c.StopAt = -1
+	c.Prelude = rapid.SampledFrom([]int{0, 0, 0, 1, 2, 3, 4}).Draw(t, "prelude")
 	return c
+}
+
+// diffPrelude runs and abandons a diff; whatever it returns is not this check's subject.
+func diffPrelude(p *pair, kind int) {
+	stop := func(removed bool, link interface{}) (bool, error) { return false, nil }
+	_ = core.Safely("prelude", func() error {
+		switch kind {
+		case 1:
+			return p.old.M.DiffLinks(core.Ctx, p.new.M, stop)
+		case 2:
+			return p.old.M.DiffIter(core.Ctx, p.new.M, func(a, r bool, k, av, rv interface{}) (bool, error) { return true, errStop })
+		case 3:
+			return p.new.M.DiffLinks(core.Ctx, p.old.M, stop)
+		case 4:
+			dc, err := p.new.M.StartDiff(core.Ctx, p.old.M)
+			if err == nil {
+				_, _ = dc.NextEntry(core.Ctx)
+			}
+		}
+		return nil
+	})
 }
 
 type pair struct {
